@@ -433,7 +433,7 @@ func Extract(root string) (*Table, error) {
 	all := map[string]*Row{}
 	var order []string
 	var pas []*pkgAn
-	var capNotes []string
+	var capNotes, pubNotes []string
 	for _, d := range dirs {
 		pa, err := analysePackage(root, d)
 		if err != nil {
@@ -452,6 +452,15 @@ func Extract(root string) (*Table, error) {
 			}
 		}
 		capNotes = append(capNotes, cnotes...)
+		prow, pnotes := pa.publishedRows()
+		for _, r := range prow {
+			k := r.semKey()
+			if _, ok := all[k]; !ok {
+				all[k] = r
+				order = append(order, k)
+			}
+		}
+		pubNotes = append(pubNotes, pnotes...)
 		for t := range pa.tracked {
 			tbl.Types = append(tbl.Types, t)
 		}
@@ -468,6 +477,7 @@ func Extract(root string) (*Table, error) {
 	}
 	addSharedGlobals(tbl, pas)
 	tbl.Captured = capNotes
+	tbl.Notes = append(tbl.Notes, pubNotes...)
 	for _, k := range keys(ambientUsed) {
 		tbl.Notes = append(tbl.Notes, "ambient lock matched by owner type: "+k)
 	}
